@@ -1,6 +1,7 @@
 import OcppModel.WsAdmit
 import OcppModel.WsServer
 import OcppModel.WsSocket
+import OcppModel.WsClient
 
 /-! Line-protocol drivers for the websocket suites; mirror go/cmd/harness/ws*.go -/
 namespace Ocpp.Drv
@@ -138,5 +139,62 @@ def stepWsIO (st : IoSt) (f : List String) : IoSt × String :=
     if st.srv.pump == .done then (st, "error") else ({ srv := closeSeq st.srv, cli := closeSeq st.cli }, "ok")
   | ["cstop"] => ({ srv := closeSeq st.srv, cli := closeSeq st.cli }, "ok")
   | _ => (st, "bad-op")
+
+end Ocpp.Drv
+
+namespace Ocpp.Drv
+open Ocpp.WsClient
+
+def showCli (o : List WsClient.Obs) : String :=
+  let p := o.filterMap (fun x => match x with
+    | .discCb true => some "disc:err"
+    | .discCb false => some "disc:nil"
+    | .recCb => some "rec"
+    | _ => none)
+  if p.isEmpty then "-" else " ".intercalate p
+
+def stepWsCli (s : WsClient.St) (f : List String) : WsClient.St × String :=
+  match f with
+  | ["reset", _] => ({}, "ok")
+  | ["start"] =>
+    let (s', o) := WsClient.step s .start
+    (s', s!"{if o.head? == some .ok then "ok" else "err"} {showCli o} conns={s'.conns}")
+  | ["startretry"] =>
+    let (s', o) := WsClient.step s .startRetry
+    (s', s!"{if s'.connected then "ok" else "looping"} {showCli o} conns={s'.conns}")
+  | ["down"] => ((WsClient.step s .down).1, "ok")
+  | ["hang"] => ((WsClient.step s .hang).1, "ok")
+  | ["up"] =>
+    let (s', o) := WsClient.step s .up
+    (s', s!"ok {showCli o} conns={s'.conns} connected={s'.connected}")
+  | ["lose", _] =>
+    if !s.connected then (s, "no-connection") else
+    let (s', o) := WsClient.step s .lose
+    (s', s!"{if s'.connected then "reconnected" else "looping"} {showCli o} conns={s'.conns}")
+  | ["fails", n] =>
+    let (s', o) := WsClient.step s (.fails n.toNat!)
+    (s', s!"failed={o.head? == some (.failed true)} - conns={s'.conns}")
+  | ["idle", _] => (s, s!"connected={s.connected} - conns={s.conns}")
+  | ["stop"] =>
+    let (s', o) := WsClient.step s .stop
+    (s', s!"stopped {showCli o} conns={s'.conns} connected=false")
+  | ["stop2"] =>
+    let (s1, o1) := WsClient.step s .stop
+    let (s2, o2) := WsClient.step s1 .stop
+    (s2, s!"stopped {showCli (o1 ++ o2)} conns={s2.conns} connected=false")
+  | _ => (s, "bad-op")
+
+end Ocpp.Drv
+
+namespace Ocpp.Drv
+open Ocpp.WsClient
+
+def stepWsKa (f : List String) : String :=
+  match f with
+  | ["k", cp, cw, spw, sp, sw] =>
+    if bothAlive (clientCfg cp.toNat! cw.toNat!) (serverCfg spw.toNat! sp.toNat! sw.toNat!) then "alive" else "dropped"
+  | ["d", spw, sp, sw] =>
+    if (readWait (serverCfg spw.toNat! sp.toNat! sw.toNat!)).isSome then "detected" else "kept"
+  | _ => "bad-op"
 
 end Ocpp.Drv
